@@ -126,11 +126,6 @@ def r_variant_tree(model, rep):
                     ((("names", "i"), ("call", ("global", "sorted"), (("sub", dat, ("const", "variants")),), ()), ()),))
             ok = want in alts
             msg = "child UIDs are not built as '%s-%s' % (self.uid, id) for id in sorted(data['variants'])"
-            if ok:
-                others = [a for a in alts if a != want]
-                # every other alternative must be the empty list or belong to a legacy gate
-                ok = all(a == ("list", ()) or T.contains(a, lambda x: x[0] == "call" and x[1][0] == "attr" and x[1][2] == "startswith") for a in others)
-                msg = "unexpected source of child UIDs: %s" % [T.show(a)[:80] for a in others]
     rep.ob("R-VARIANT-TREE", "Variant.deserialize:children", ok, site=cx.site(f.node), msg="" if ok else msg)
     # paths and layered-product release are read from the variant's own entry
     pd = [ev for ev in cx.events if ev.kind == "call" and ev.value[1] == ("attr", ("attr", S, "paths"), "deserialize")]
@@ -317,20 +312,32 @@ def r_cells(model, rep):
     if ok:
         ad = adds[0]
         tab = ("sub", ("sub", IN, ("const", "payload")), ("const", "images"))
-        ok = len(ad.loops) == 3
+        ok = len(ad.loops) == 3 and len(ad.value[2]) >= 3
         msg = "images must be read by three nested loops"
         if ok:
-            v = ("elem", tab, ad.loops[0][0])
-            a = ("elem", ("sub", tab, v), ad.loops[1][0])
-            i = ("elem", ("sub", ("sub", tab, v), a), ad.loops[2][0])
-            ok = [l[1] for l in ad.loops] == [tab, ("sub", tab, v), ("sub", ("sub", tab, v), a)] and ad.value[2][:2] == (v, a) \
+            # both loop idioms are accepted:  for k in T / for k, v in T.items()   (v is rewritten to T[k])
+            vkey, akey, img = [T.norm_items(x) for x in ad.value[2][:3]]
+            its = [T.norm_items(l[1]) for l in ad.loops]
+
+            def draws_key(key, it, container):
+                # key is the element of a loop over <container> or the key component of a loop over <container>.items()
+                if key[0] == "elem" and T.norm_items(key[1]) == container:
+                    return True
+                if key[0] == "idx" and key[2] == 0 and key[1][0] == "elem":
+                    src = key[1][1]
+                    return (src[0] == "call" and src[1][0] == "attr" and src[1][2] in ("items", "iteritems") and T.norm_items(src[1][1]) == container) \
+                        or (src[0] == "call" and src[1] == ("global", "six.iteritems") and T.norm_items(src[2][0]) == container)
+                return False
+            cell = ("sub", ("sub", tab, vkey), akey)
+            ok = draws_key(vkey, its[0], tab) and draws_key(akey, its[1], ("sub", tab, vkey)) and its[2] == cell \
                 and not facts.non_gate_guards(ad)
             msg = "every record of payload/images/<variant>/<arch> must be filed with add(<same variant>, <same arch>, image)"
             if ok:
-                img = ad.value[2][2]
-                des = [ev for ev in cx.events if ev.kind == "call" and ev.value[1] == ("attr", img, "deserialize") and ev.loops == ad.loops]
+                i = ("elem", ad.loops[2][1], ad.loops[2][0])
+                des = [ev for ev in cx.events if ev.kind == "call" and ev.value[1][0] == "attr" and ev.value[1][2] == "deserialize"
+                       and ev.value[1][1] == ad.value[2][2] and ev.loops == ad.loops]
                 ok = len(des) == 1 and des[0].value[2] == (i,) and des[0].seq < ad.seq and not T.guard_tests(des[0]) \
-                    and T.unwrap(img) == ("call", ("global", "Image"), (S,), ())
+                    and T.unwrap(ad.value[2][2]) == ("call", ("global", "Image"), (S,), ())
                 msg = "each record must be turned into Image(self), deserialised from the record, then added"
     rep.ob("R-CELLS", "Images.deserialize:cells", ok, site=cx.site(f.node), msg="" if ok else msg)
     lids = set(l[0] for ev in adds for l in ev.loops)
@@ -383,8 +390,35 @@ def r_payload_verbatim(model, rep):
             and not r[0].guards and not r[0].loops
         rep.ob("R-PAYLOAD", "%s.deserialize" % q, ok, site="%s:%s" % (g.module.rel(), g.node.lineno),
                msg="" if ok else "self.%s must be read back from payload[%r] unchanged by the current-version reader" % (key, key))
-        # nothing else rewrites the table afterwards
+        # nothing rewrites the table (or the document it came from) in place
         gcx = facts.fctx(model, g)
+        touched = []
+        inl = [g] + ([model.own_method(q, "deserialize_1_0")] if "deserialize_1_0" in model.cls(q).methods else [])
+        for h in inl:
+            hcx = facts.fctx(model, h)
+            for ev in hcx.events:
+                tgt = None
+                if ev.kind in ("store", "del") and ev.target is not None and hcx.self_attr(ev.target) != key:
+                    tgt = ev.target
+                elif ev.kind == "call" and ev.value[1][0] == "attr" and ev.value[1][2] in (
+                        "update", "pop", "setdefault", "clear", "append", "extend", "remove", "sort", "popitem", "insert"):
+                    tgt = ev.value[1][1]
+                if tgt is not None and (T.contains(tgt, lambda x: hcx.self_attr(x) == key) or T.contains(tgt, lambda x: x == ("param", hcx.params[1]) if len(hcx.params) > 1 else False)):
+                    touched.append("line %s: %s" % (ev.lineno, T.show(tgt)[:80]))
+        rep.ob("R-PAYLOAD", "%s.deserialize:no-in-place-rewrite" % q, not touched, site=gcx.site(g.node),
+               msg="" if not touched else "the current-version reader rewrites the payload in place (%s): the re-read mapping differs from what was written" % "; ".join(touched[:3]))
+        wt = []
+        for ev in cx.events:
+            tgt = None
+            if ev.kind in ("store", "del") and ev.target is not None and T.contains(ev.target, lambda x: cx.self_attr(x) == key):
+                tgt = ev.target
+            elif ev.kind == "call" and ev.value[1][0] == "attr" and ev.value[1][2] in ("update", "pop", "setdefault", "clear", "append", "extend", "remove", "sort", "popitem", "insert") \
+                    and T.contains(ev.value[1][1], lambda x: cx.self_attr(x) == key):
+                tgt = ev.value[1][1]
+            if tgt is not None:
+                wt.append("line %s: %s" % (ev.lineno, T.show(tgt)[:80]))
+        rep.ob("R-PAYLOAD", "%s.serialize:no-in-place-rewrite" % q, not wt, site=cx.site(f.node),
+               msg="" if not wt else "the writer modifies the payload table (%s)" % "; ".join(wt[:3]))
         later = [x for x in reads if x.attr == key and x is not (r[0] if r else None)]
         rep.ob("R-PAYLOAD", "%s.deserialize:single-assignment" % q, not later, site=gcx.site(g.node),
                msg="" if not later else "self.%s is assigned more than once by the current-version reader" % key)
@@ -396,15 +430,14 @@ def r_payload_verbatim(model, rep):
 
 @register("C03")
 def check_c03(model, rep, tier):
-    from .builders import r_keys
     rep.explanation = (
         "For rpms, modules and extra-files manifests the payload table is stored and restored verbatim: decided on def-use "
         "terms that serialize() writes data['payload'][k] = self.<k> (last store, unconditional, no transform) and the "
         "reader branch selected for the current VERSION assigns self.<k> = data['payload'][k] exactly once with a hard "
         "access and no transform, for k in {rpms, modules, extra_files}; header and compose section are written and read "
-        "unconditionally by the composite writer/reader; the compose section and header tables agree (R-SCHEMA). That the "
-        "mapping produced by add() has the documented layout (so that 'the same mapping' is the documented one) is C12's "
-        "R-KEYS, re-evaluated here. A transform or key change on one side is the only way these three can fail to "
+        "unconditionally by the composite writer/reader; the compose section and header tables agree (R-SCHEMA); neither "
+        "side rewrites the table in place. That the mapping produced by add() has the documented layout is C12's business "
+        "(R-KEYS) and is not re-evaluated here. A transform or key change on one side is the only way these three can fail to "
         "round-trip. Not decided: JSON fidelity of caller-supplied leaf values (size, koji_tag, ...).")
     rep.not_decided = ["JSON fidelity of caller-supplied leaf values", "byte equality (follows with C08)"]
     r_payload_verbatim(model, rep)
@@ -412,7 +445,6 @@ def check_c03(model, rep, tier):
         r_composite(model, rep, q, ["header", "compose"])
     for q in ("common.Header", "composeinfo.Compose"):
         r_schema(model, rep, q, FLOORS[q])
-    r_keys(model, rep)
     r_io_chain(model, rep)
     r_defassign(model, rep, ["rpms", "modules", "extra_files"])
 
@@ -681,6 +713,14 @@ def r_ti_variant_tree(model, rep):
         ok = ok and len(ho) == 1
     rep.ob("R-TI-PATHS", "treeinfo.VariantPaths.deserialize_1_0", ok, site=gcx.site(g.node),
            msg="" if ok else "every path kind must be read from [variant section]/<kind> when present, None otherwise")
+    # the dispatching wrapper itself must not touch the fields for current-version files
+    w = model.own_method("treeinfo.VariantPaths", "deserialize")
+    wcx = facts.fctx(model, w)
+    extra = [ev for ev in wcx.events if facts.active_at(ev, V) and (
+        (ev.kind == "store" and wcx.self_attr(ev.target) is not None) or (ev.kind == "call" and ev.value[1] == ("global", "setattr")))]
+    rep.ob("R-TI-PATHS", "treeinfo.VariantPaths.deserialize:no-post-processing", not extra, site=wcx.site(extra[0].lineno if extra else w.node),
+           msg="" if not extra else "for current-version files the reader rewrites path fields after reading them (line %s: %s): the value "
+                                   "read back is not the value written" % (extra[0].lineno, T.show(extra[0].target or extra[0].value)[:80]))
 
 
 def r_parser_symmetry(model, rep):
@@ -712,6 +752,27 @@ def r_parser_symmetry(model, rep):
     ok = len(rets) == 1 and rets[0].value == P(ocx.params[1])
     rep.ob("R-PARSER-SYMMETRY", "SortedConfigParser.optionxform", ok, site=ocx.site(o.node),
            msg="" if ok else "optionxform must be the identity (option names keep their case both ways)")
+    # the parser is a plain ConfigParser apart from dict_type: any other option (comment prefixes, delimiters,
+    # interpolation, strict ...) makes what is read differ from what was written
+    i = model.own_method("common.SortedConfigParser", "__init__")
+    icx = facts.fctx(model, i)
+    keys = set()
+    for ev in icx.events:
+        if ev.kind == "store" and ev.target[0] == "sub" and ev.target[1] == ("param", "kwargs") and ev.target[2][0] == "const":
+            keys.add(ev.target[2][1])
+        if ev.kind == "call" and ev.value[1][0] == "attr" and ev.value[1][2] in ("__init__",):
+            for k, v in ev.value[3]:
+                if k != "**":
+                    keys.add(k)
+        if ev.kind == "call" and ev.value[1][0] == "attr" and ev.value[1][1] == ("param", "kwargs") and ev.value[1][2] in ("update", "setdefault"):
+            keys.add("<kwargs.%s>" % ev.value[1][2])
+    ok = keys <= {"dict_type"}
+    rep.ob("R-PARSER-SYMMETRY", "SortedConfigParser.__init__:options", ok, site=icx.site(i.node),
+           msg="" if ok else "SortedConfigParser changes ConfigParser options %s: values are then read differently from how they were "
+                             "written" % sorted(keys - {"dict_type"}))
+    extra = [n for n in model.cls("common.SortedConfigParser").methods if n not in ("__init__", "optionxform", "option_lookup", "read_file")]
+    rep.ob("R-PARSER-SYMMETRY", "SortedConfigParser:overrides", not extra, site=icx.site(i.node),
+           msg="" if not extra else "SortedConfigParser overrides %s" % extra)
 
 
 def r_discinfo_pos(model, rep):
@@ -808,7 +869,7 @@ def check_c04(model, rep, tier):
     r_section_dep(model, rep)
     r_ti_variant_tree(model, rep)
     r_checksums_schema(model, rep)
-    r_cks_reader(model, rep, rule_id="R-CKS-FORMAT")
+    r_cks_reader(model, rep, rule_id="R-CKS-FORMAT", format_only=True)
     r_parser_symmetry(model, rep)
     r_discinfo_pos(model, rep)
     r_defassign(model, rep, ["treeinfo", "discinfo"])
@@ -912,6 +973,48 @@ def r_legacy_map(model, rep):
     rep.floor("R-LEGACY-MAP", 25)
 
 
+# stores of the *current-version* reader path whose value is not taken from the document but derived from other fields of
+# the object: each is a documented fallback, confirmed by reading
+SELF_DERIVED_OK = {
+    ("treeinfo.Release", "short"): "documented fallback: a missing 'short' defaults to the release name",
+    ("treeinfo.Variant", "uid"): "the uid under which the document lists the variant (parameter), then overwritten from the file",
+    ("treeinfo.Variant", "type"): "the caller's hint for addons, then overwritten from the file",
+}
+
+
+def r_convert_once(model, rep):
+    """conversion happens exactly once: for current-version documents no reader derives a field from other fields of the
+    object (a legacy conversion that is not gated to legacy versions is applied again when the re-written file is loaded)"""
+    V = current_version(model)
+    n = 0
+    for cls in facts.metadata_classes(model):
+        if "deserialize" not in cls.methods:
+            continue
+        f = FuncRef(cls.module, cls, cls.methods["deserialize"])
+        cx = facts.fctx(model, f)
+        if len(cx.params) < 2:
+            continue
+        reads = facts.reader_reads(model, f, version=V)
+        for r in reads:
+            n += 1
+            if r.sources or not isinstance(r.attr, str):
+                continue
+            data_attrs = cls.init_attrs(model)
+            derived = [a for a in cx.self_attrs_in(r.value) if not a.startswith("_") and a in data_attrs
+                       and a not in cls.properties]
+            if not derived:
+                continue
+            key = (cls.qname, r.attr)
+            ok = key in SELF_DERIVED_OK
+            rep.ob("R-CONVERT-ONCE", "%s.%s" % key, ok, site="%s:%s" % (cls.module.rel(), r.ev.lineno),
+                   msg="" if ok else "for current-version documents self.%s is derived from self.%s instead of being read from the "
+                                     "document: a conversion that runs again every time the file is re-loaded" % (r.attr, "/".join(derived)),
+                   trivial=ok)
+    if n < 60:
+        raise AnalysisError("vacuity guard: R-CONVERT-ONCE looked at %d stores (floor 60)" % n)
+    rep.ob("R-CONVERT-ONCE", "current-version-readers", True, facts={"stores_examined": n})
+
+
 @register("C05")
 def check_c05(model, rep, tier):
     rep.explanation = (
@@ -933,6 +1036,7 @@ def check_c05(model, rep, tier):
     from .regexes import r_legacy_compose
     r_src_route(model, rep)
     r_legacy_compose(model, rep)
+    r_convert_once(model, rep)
     rep.extra["exhaustive"] = True
 
 
